@@ -321,6 +321,37 @@ def tie_lattice(rng):
     return dict(name="+".join(tags), G=G, basis=np.array(basis, dtype="double", order="C"), ties=ties)
 
 
+_GOMP = None
+
+
+def set_threads(k):
+    """omp_set_num_threads on the OpenMP runtime the kernels are linked against (as c13/c01 do); returns omp_get_max_threads()"""
+    global _GOMP
+    if _GOMP is None:
+        import ctypes
+
+        _GOMP = ctypes.CDLL("libgomp.so.1")
+    _GOMP.omp_set_num_threads(int(k))
+    return int(_GOMP.omp_get_max_threads())
+
+
+def brute_force_all_pairs(basis, pos_to, pos_from, red):
+    """vectorised exhaustive minimum-image search for all pairs: returns (excess lengths (nto,nfrom,M), vectors in `basis`
+    coordinates (nto,nfrom,M,3)) over the M lattice translations of a box that contains every image within 1e-2 of the minimum"""
+    M = np.rint(red @ np.linalg.inv(basis))
+    assert abs(abs(np.linalg.det(M)) - 1) < 1e-9
+    Minv = np.linalg.inv(M)
+    bs = np.sqrt((np.linalg.inv(red) ** 2).sum(axis=0))
+    d = (pos_to[:, None, :] - pos_from[None, :, :]) @ Minv
+    x0 = d - np.rint(d)
+    rho = np.sqrt(((x0 @ red) ** 2).sum(axis=2)).max() + 1e-2
+    R = [int(np.ceil(rho * bs[i])) + 1 for i in range(3)]
+    n = np.array(np.meshgrid(*[np.arange(-R[i], R[i] + 1) for i in range(3)], indexing="ij")).reshape(3, -1).T
+    v = x0[:, :, None, :] + n[None, None, :, :]
+    L = np.sqrt(((v @ red) ** 2).sum(axis=3))
+    return L - L.min(axis=2, keepdims=True), v @ M
+
+
 def main(run):
     rng = run.rng
     common.setup_phonopy("omp")
@@ -428,10 +459,22 @@ def main(run):
         d2s_v, d2s_m = dense_to_sparse_svecs(dsv, dmu)
         s2d_v, s2d_m = sparse_to_dense_svecs(ssv, smu)
         run.count("oracle-dense-sparse-conversion", section="oracle")
-        if not ((d2s_m == smu).all() and np.abs(d2s_v - ssv).max() < 1e-9 and (s2d_m == dmu).all() and np.abs(s2d_v - dsv).max() < 1e-9):
-            run.violation("dense_to_sparse_svecs/sparse_to_dense_svecs", "dense-ne-sparse", "conversion between the storage formats does not reproduce the other kernel's table", case)
-        if (dmu[:, :, 0] < 1).any() or (np.cumsum(np.r_[0, dmu[:, :, 0].ravel()[:-1]]) != dmu[:, :, 1].ravel()).any():
-            run.violation("get_smallest_vectors(store_dense_svecs=True)", "multiplicity-address", "addresses are not the running sum of multiplicities", case)
+        conv_ok = (d2s_m == smu).all() and (s2d_m[:, :, 0] == dmu[:, :, 0]).all()
+        if conv_ok:
+            for i in range(dmu.shape[0]):
+                for j in range(dmu.shape[1]):
+                    m, adr = int(dmu[i, j, 0]), int(dmu[i, j, 1])
+                    a2 = int(s2d_m[i, j, 1])
+                    # end effect: reading a pair through either format and either converter gives the same set of vectors
+                    if not (same_set(d2s_v[i, j, :m], dsv[adr:adr + m], scale) and same_set(s2d_v[a2:a2 + m], ssv[i, j, :m], scale)):
+                        conv_ok = False
+        if not conv_ok:
+            run.violation("dense_to_sparse_svecs/sparse_to_dense_svecs", "dense-ne-sparse", "a pair read through the converted table is not the set the other kernel stores", case)
+        # representation only (not part of the statement): addresses as running sum of multiplicities, unused sparse slots zero
+        if (np.cumsum(np.r_[0, dmu[:, :, 0].ravel()[:-1]]) == dmu[:, :, 1].ravel()).all():
+            run.count("observation: dense addresses are the running sum of multiplicities")
+        else:
+            run.count("observation: dense addresses are NOT the running sum of multiplicities (sets still read correctly)")
         nontriv = maxmult > 1 or "sheared" in lat["name"] or "needle" in lat["name"] or "plate" in lat["name"]
         run.case((tuple(map(tuple, G)), tuple(map(tuple, pos)), nfrom), nontrivial=nontriv)
         run.count("lattice " + lat["name"].split("+")[0])
@@ -554,6 +597,66 @@ def main(run):
                                  "(excess >= 10*symprec: must not be stored); reference = brute-force enumeration with |r| - min|r| < symprec; "
                                  "cases with an image between symprec/10 and 10*symprec are skipped, so the check is insensitive to a change of "
                                  "the constant by less than a factor 10 but not to a change of the criterion (e.g. squared lengths)")
+
+    # ------------------------------------------------------------ large calls (> 20000 pairs), 8 and 1 OpenMP threads
+    # One call with ~170 x 170 positions through the public ShortestPairs / get_smallest_vectors path, dense and sparse, repeated
+    # (thread races are not deterministic), compared pair by pair with a vectorised brute-force enumeration of all lattice images.
+    # The Lean model is not evaluated at this size (the same kernels are compared with it on the small cases above).
+    if common._STATE.get("variant") != "omp":
+        run.broke("harness", "the OpenMP build of the kernels is not the active variant")
+    Bl = np.array([[21.0, 0.0, 0.0], [3.0, 19.0, 0.0], [-2.5, 4.0, 24.0]])
+    nbig = 168 + rng.randrange(6)
+    half = [[(k >> 2 & 1) / 2.0, (k >> 1 & 1) / 2.0, (k & 1) / 2.0] for k in range(8)]
+    pbig = np.array(half + [[rng.randint(0, 63) / 64.0 for _ in range(3)] for _ in range(nbig - 8)], dtype="double", order="C")
+    redl = np.array(C.get_reduced_bases(Bl, tolerance=SYMPREC))
+    excess, vall = brute_force_all_pairs(Bl, pbig, pbig, redl)
+    sel = excess < SYMPREC
+    grey = ((excess > SYMPREC / 10) & (excess < SYMPREC * 10)).any(axis=2)
+    mexp = sel.sum(axis=2)
+    run.cov["large_call"] = ("%d x %d = %d pairs in one call (threshold of interest: > 20000), sheared 21x19x24 cell, 8 half-grid points (ties up to 8) + random "
+                             "k/64 positions; OpenMP threads 8 (3 repetitions) and 1; reference = vectorised numpy enumeration over %d lattice translations; "
+                             "the Lean model is not evaluated at this size" % (nbig, nbig, nbig * nbig, excess.shape[2]))
+    for threads, reps in ((8, 3), (1, 1)):
+        got = set_threads(threads)
+        if got != threads:
+            run.broke("harness", "omp_set_num_threads(%d) not seen by the OpenMP library (omp_get_max_threads() = %d)" % (threads, got))
+        for rep in range(reps):
+            dsv, dmu = quiet(get_smallest_vectors, Bl, pbig, pbig, store_dense_svecs=True, symprec=SYMPREC)
+            ssv, smu = quiet(get_smallest_vectors, Bl, pbig, pbig, store_dense_svecs=False, symprec=SYMPREC)
+            run.case(("large", nbig, threads, rep), nontrivial=True)
+            run.count("large call threads=%d" % threads)
+            run.count("oracle-large-call-pairs", n=int((~grey).sum()) * 2, section="oracle")
+            case = dict(basis=Bl.tolist(), n_positions=nbig, positions_seeded=True, threads=threads, repetition=rep, pairs=nbig * nbig)
+            for name, mu_, getv in (("True", dmu[:, :, 0], lambda i, j: dsv[int(dmu[i, j, 1]):int(dmu[i, j, 1]) + int(dmu[i, j, 0])]),
+                                    ("False", smu, lambda i, j: ssv[i, j, :int(smu[i, j])])):
+                wrong = (np.array(mu_) != mexp) & ~grey
+                nwrong = int(wrong.sum())
+                first = None
+                if nwrong:
+                    first = [int(x) for x in np.argwhere(wrong)[0]]
+                else:
+                    # vectors: every pair (single images vectorised, ties pair by pair)
+                    for i, j in np.argwhere(~grey):
+                        if not same_set(getv(i, j), vall[i, j][sel[i, j]], 30.0):
+                            nwrong += 1
+                            first = first or [int(i), int(j)]
+                if nwrong:
+                    i, j = first
+                    run.violation("get_smallest_vectors(store_dense_svecs=%s)" % name, "not-minimum-images-large-call",
+                                  "%d of %d pairs wrong in one call with %d OpenMP threads (first: pair (%d,%d) stores %d vectors, exhaustive "
+                                  "enumeration finds %d minimum images)" % (nwrong, nbig * nbig, threads, i, j, int(np.array(mu_)[i, j]), int(mexp[i, j])),
+                                  dict(case, pair=[i, j]))
+            ok_ds = (smu == dmu[:, :, 0]).all()
+            if ok_ds:
+                for i, j in np.argwhere(mexp > 1):
+                    m, adr = int(dmu[i, j, 0]), int(dmu[i, j, 1])
+                    if not same_set(dsv[adr:adr + m], ssv[i, j, :m], 30.0):
+                        ok_ds = False
+                        break
+            if not ok_ds:
+                run.violation("get_smallest_vectors(store_dense_svecs=False)", "dense-ne-sparse-large-call",
+                              "dense and sparse tables of one large call (%d threads) do not describe the same sets" % threads, case)
+    set_threads(int(__import__("os").environ.get("OMP_NUM_THREADS", "4")))
 
     # ------------------------------------------------------------ Primitive.get_smallest_vectors
     names = ["sc", "cscl", "nacl_prim", "bcc", "fcc", "hcp", "zincblende_prim", "bct", "ortho_C", "mono_P", "triclinic", "rhombo", "nacl", "diamond", "wurtzite"]
